@@ -35,7 +35,8 @@ type config struct {
 	plan   int    // mount plan
 	regs   []hreg
 	late   bool // mounts after the sub-mux registrations
-	names  []string
+	names  []string // names looked up after the arrangement is built
+	probe  bool     // ... and also before every registration (lookups have no effect on later ones)
 	desc   string
 	nextID int
 }
@@ -124,6 +125,16 @@ func build(cfg *config) (ops []rec, root *res.Mux, mountFailed bool) {
 	var subOps []rec
 	for i := range cfg.regs {
 		h := &cfg.regs[i]
+		if cfg.probe {
+			// lookups made while the tree is still being built (last: the name that is looked up first afterwards)
+			for k := len(cfg.names) - 1; k >= 0; k-- {
+				n := cfg.names[k]
+				core.Catch(func() { root.GetHandler(n) })
+				if sub != nil && k%2 == 0 {
+					core.Catch(func() { sub.GetHandler(n) })
+				}
+			}
+		}
 		cfg.nextID++
 		id := cfg.nextID
 		full := join(cfg.sp, strings.Join(h.toks, "."))
@@ -469,7 +480,28 @@ func Run(c *core.Ctx) {
 	nt := &nameTable{idx: map[string]int{}}
 	lookups := 0
 	skipped := 0
-	for _, cfg := range cfgs {
+	for ci, cfg := range cfgs {
+		cfg.names = lookupNames(cfg.sp, rng, 6)
+		cfg.probe = ci%2 == 1
+		if cfg.probe && len(cfg.regs) > 0 {
+			// the name looked up right before the last registration, and first afterwards, is one that
+			// the last registered pattern matches
+			var inst []string
+			for _, t := range cfg.regs[len(cfg.regs)-1].toks {
+				if strings.HasPrefix(t, "$") || t == "*" || t == ">" {
+					t = []string{"c", "a", "b"}[ci/2%3]
+				}
+				inst = append(inst, t)
+			}
+			first := join(cfg.sp, strings.Join(inst, "."))
+			names := []string{first}
+			for _, n := range cfg.names {
+				if n != first {
+					names = append(names, n)
+				}
+			}
+			cfg.names = names
+		}
 		ops, root, mf := build(cfg)
 		if root == nil {
 			skipped++
@@ -477,7 +509,7 @@ func Run(c *core.Ctx) {
 		}
 		_ = mf
 		var lks []rec
-		for _, n := range lookupNames(cfg.sp, rng, 6) {
+		for _, n := range cfg.names {
 			lks = append(lks, lookup(root, n, nt))
 		}
 		lookups += len(lks)
